@@ -2,6 +2,7 @@ package zygo
 
 import (
 	"fmt"
+	"strings"
 )
 
 var NoExpressionsFound = fmt.Errorf("No expressions found")
@@ -13,6 +14,13 @@ type Generator struct {
 	scopes         int
 	instructions   []Instruction
 	knownFunctions map[int]*SexpFunction
+
+	// selfRebound (shared with the sub-generators of the same function)
+	// is set once the body being compiled binds the function's own name
+	// again -- a parameter, an inner defn/def/let/set of that name. From
+	// then on a call of that name is not a self call and must not be
+	// turned into a jump to the top of this function.
+	selfRebound *bool
 }
 
 type Loop struct {
@@ -36,12 +44,14 @@ func NewGenerator(env *Zlisp) *Generator {
 	gen.Tail = false
 	// scopes is the number of extra (non-function) scopes we've created
 	gen.scopes = 0
+	gen.selfRebound = new(bool)
 	return gen
 }
 
 func (gen *Generator) NewSubGenerator() *Generator {
 	subgen := NewGenerator(gen.env)
 	subgen.knownFunctions = gen.knownFunctions
+	subgen.selfRebound = gen.selfRebound
 	return subgen
 }
 
@@ -51,6 +61,24 @@ func (gen *Generator) AddInstructions(instr []Instruction) {
 
 func (gen *Generator) AddInstruction(instr Instruction) {
 	gen.instructions = append(gen.instructions, instr)
+	if gen.funcname == "" {
+		return
+	}
+	rebinds := func(sym *SexpSymbol) {
+		if sym != nil && strings.TrimPrefix(sym.name, "#") == gen.funcname {
+			*gen.selfRebound = true
+		}
+	}
+	switch in := instr.(type) {
+	case PopStackPutEnvInstr:
+		rebinds(in.sym)
+	case UpdateInstr:
+		rebinds(in.sym)
+	case BindlistInstr:
+		for _, sym := range in.syms {
+			rebinds(sym)
+		}
+	}
 }
 
 func (gen *Generator) GenerateBegin(expressions []Sexp) error {
@@ -745,7 +773,7 @@ func (gen *Generator) GenerateCallBySymbol(sym *SexpSymbol, args []Sexp, orig Se
 			selfArityOK = len(args) == known.nargs
 		}
 	}
-	if oldtail && sym.name == gen.funcname && selfArityOK {
+	if oldtail && sym.name == gen.funcname && selfArityOK && !*gen.selfRebound {
 		err := gen.GenerateCallArgsForFunction(gen.LookupKnownFunction(sym), args)
 		if err != nil {
 			return err
